@@ -228,6 +228,9 @@ func checkC09(p *Prog, c *Check) {
 	}
 	c.Floor("C09-DET.exempt.reads", nr, 1)
 	forkHeightsNormalised(p, c, "C09-forks")
+	// a restarted replica is a replica: state that gob does not carry (unexported fields) makes it
+	// answer differently from one that kept running (shared with C13)
+	c13Types(p, c)
 	// validator updates sorted before return
 	vu, err := p.Func("app.Powermap.ValidatorUpdates")
 	if c.Must(err) {
